@@ -354,11 +354,15 @@ def check_order(ctx, Epoch, j1, j2, klass):
     inp = [j1, j2]
     e1, e2 = mk(Epoch, j1), mk(Epoch, j2)
     res = {}
+    # boundary rule: |j1 - j2| within rounding of TOL (the binary64 literal 1e-10 is not 1/10**10 and the
+    # subtraction rounds): only the binary64 model is compared for == and != there
+    at_tol = abs(abs(Fraction(j1) - Fraction(j2)) - Fraction(1, 10 ** 10)) <= Fraction(1, 10 ** 22)
     for op, f in PYOPS.items():
         res[op] = run_impl(lambda: f(e1, e2))
         res[op + '_num'] = run_impl(lambda: f(e1, j2))
-        ctx.case(op + '_epoch', [j1, j2], res[op], q='exact', klass='cmp_epoch')
-        ctx.case(op, [j1, j2], res[op + '_num'], q='exact', klass='cmp_num')
+        qr = None if (at_tol and op in ('eq', 'ne')) else 'exact'
+        ctx.case(op + '_epoch', [j1, j2], res[op], q=qr, klass='cmp_epoch')
+        ctx.case(op, [j1, j2], res[op + '_num'], q=qr, klass='cmp_num')
     T = lambda b: 'T' if b else 'F'  # noqa
     for suffix in ('', '_num'):
         ok = (res['lt' + suffix] == T(j1 < j2) and res['le' + suffix] == T(j1 <= j2) and
@@ -528,7 +532,7 @@ def generate(ctx, shard=0, nshards=1):
             ctx.predicate('form_matches_instant', ok, [y, m, d, h, mi, 0], {'jde': out, 'expected': float(exact)}, 'forms_boundary')
 
     # ---- JDE stream
-    n_uniform = ctx.n(40000, 600000) // nshards
+    n_uniform = ctx.n(40000, 200000) // nshards
     for _ in range(n_uniform):
         r = rng.random()
         if r < 0.8:
@@ -537,7 +541,7 @@ def generate(ctx, shard=0, nshards=1):
             jdes.append((rng.uniform(0.0, 10.0), 'small'))
         else:
             jdes.append((rng.uniform(0.0, 1.0) * 10 ** rng.uniform(-12, 6.7), 'loguniform'))
-    n_bound = ctx.n(2000, 24000) // nshards
+    n_bound = ctx.n(2000, 8000) // nshards
     for _ in range(n_bound):
         y, m, d = random_boundary_date(rng, hot_years)
         kl = 'boundary_julian' if (y, m, d) < (1582, 10, 15) else 'boundary_gregorian'
@@ -554,13 +558,13 @@ def generate(ctx, shard=0, nshards=1):
     srt = sorted(seen)
     for a, b in zip(srt, srt[1:]):
         check_monotone(ctx, Epoch, a, b)
-    for j in rng.sample(srt, min(len(srt), ctx.n(8000, 80000) // nshards)):
+    for j in rng.sample(srt, min(len(srt), ctx.n(8000, 30000) // nshards)):
         up = ulps(j, 1)
         if up <= JMAX:
             check_monotone(ctx, Epoch, j, up, 'monotone_ulp')
 
     # ---- input forms
-    n_forms = ctx.n(8000, 120000) // nshards
+    n_forms = ctx.n(8000, 40000) // nshards
     for _ in range(n_forms):
         y, m, d = random_boundary_date(rng, hot_years)
         if rng.random() < 0.5:
@@ -577,7 +581,7 @@ def generate(ctx, shard=0, nshards=1):
         else:
             s = rng.uniform(0.0, 60.0)
         check_forms(ctx, Epoch, y, m, d, h, mi, s, 'forms')
-    n_dt = ctx.n(2000, 30000) // nshards
+    n_dt = ctx.n(2000, 10000) // nshards
     for _ in range(n_dt):
         y, m, d = random_boundary_date(rng, hot_years)
         y = min(max(y, 1), 9999)
@@ -590,7 +594,7 @@ def generate(ctx, shard=0, nshards=1):
                              rng.choice([0, 59, rng.randint(0, 59)]), rng.choice([0, 999999, 1, 500000, rng.randint(0, 999999)]), 'datetime')
 
     # ---- arithmetic
-    n_ar = ctx.n(3000, 40000) // nshards
+    n_ar = ctx.n(3000, 14000) // nshards
     for _ in range(n_ar):
         r = rng.random()
         if r < 0.5:
@@ -604,7 +608,7 @@ def generate(ctx, shard=0, nshards=1):
             check_arith(ctx, Epoch, j, x, kl)
 
     # ---- order
-    n_ord = ctx.n(6000, 80000) // nshards
+    n_ord = ctx.n(6000, 30000) // nshards
     for _ in range(n_ord):
         r = rng.random()
         j1 = rng.choice(srt) if (srt and r < 0.5) else rng.uniform(0.0, JMAX)
